@@ -9,7 +9,7 @@ from ..cfg import cfg_of
 from ..model import FunctionInfo, AnalysisError, dotted
 from ..report import Ctx
 from ..pat import Snips
-from ..util import norm, fn_body_nodes, walk_local, kwarg
+from ..util import ordered_args, norm, fn_body_nodes, walk_local, kwarg
 from .common import arg_permutation_rule, names_in, calls_named
 from . import simloop as SL
 
@@ -161,7 +161,7 @@ def pomdp_rollout(ctx: Ctx):
                           f"the observation is drawn from observation_dist({', '.join(got)}): it must condition on the action taken and the state *entered*")
             if isinstance(c.func, ast.Attribute) and c.func.attr == "next_agentstate":
                 nag = st.targets[0].id
-                got = [ast.unparse(a) for a in c.args]
+                got = [ast.unparse(a) for a in ordered_args(c)]
                 ctx.check(got == [ag, L.a, ovar] and dotted(c.func.value) == fi.self_name, "OBS-1", fi, st,
                           f"next agent state = self.next_agentstate({ag}, {L.a}, {ovar})", "",
                           f"agent state updated with ({', '.join(got)}), not with this step's (agent state, action, observation)")
@@ -231,7 +231,7 @@ def rule_evaluate(ctx: Ctx):
         c = rets[0].value
         res = run and [st for st in lp.body if isinstance(st, ast.Assign) and st.value is run[0]]
         resvar = res[0].targets[0].id if res else None
-        got = [ast.unparse(a) for a in c.args]
+        got = [ast.unparse(a) for a in ordered_args(c)]
         ctx.check(got == [f"{resvar}.reward", "mdp.discount_rate"], "MC-2", fi, c, "returns = calc_returns(<this roll-out>.reward, mdp.discount_rate)", "",
                   f"returns are computed from ({', '.join(got)})")
         rv = rets[0].targets[0].id
